@@ -121,6 +121,10 @@ impl<R: Read + Seek> ReadBox<&mut R> for MetaBox {
                     "meta box contains a box with a larger size than it",
                 ));
             }
+            if s == 0 {
+                // A zero-size child never advances the stream: stop instead of looping forever.
+                break;
+            }
 
             match name {
                 BoxType::HdlrBox => {
@@ -156,6 +160,10 @@ impl<R: Read + Seek> ReadBox<&mut R> for MetaBox {
                             "meta box contains a box with a larger size than it",
                         ));
                     }
+                    if s == 0 {
+                        // A zero-size child never advances the stream: stop instead of looping forever.
+                        break;
+                    }
 
                     match name {
                         BoxType::IlstBox => {
@@ -183,6 +191,10 @@ impl<R: Read + Seek> ReadBox<&mut R> for MetaBox {
                         return Err(Error::InvalidData(
                             "meta box contains a box with a larger size than it",
                         ));
+                    }
+                    if s == 0 {
+                        // A zero-size child never advances the stream: stop instead of looping forever.
+                        break;
                     }
 
                     match name {
